@@ -91,6 +91,14 @@ CHECKS.update({
    text="The specification is the oracle for the state effect of every accepted message and for 'an error leaves every collection and LastOffset unchanged'. Round-trip fidelity over entity values, keys and option combinations and robustness against arbitrary bytes are covered by seeded random generation (projection flags validated by the trace specification), not by model checking.",
    note=SNOTE+" Byte-level breadth is random generation (quick: 5000 fuzz inputs, 400 round trips).", ref="DESIGN.md 5/C19, 4.8"),
 })
+
+CHECKS.update({
+ "C03": dict(technique="TLA+ spec Locks.tla: TLC deadlock check over every lock of ebu with writer-preferring RWMutex semantics and re-entrant calls from user-code points (+ two mutants that must deadlock); the re-entrant patterns executed on the real bus under a watchdog; race clause: Go race detector on free-running mixes of all call kinds",
+   text="The deadlock clause is decided on the design by TLC (all interleavings of 2 goroutines, nesting depth 2, every callback kind as a point where a re-entrant operation may start) and bound to the code by executing every (callback kind x re-entrant operation) pattern against queued writers with a 10 s watchdog. The data-race clause cannot be decided by TLA+: it is decided by the Go race detector observing free-running executions (no harness synchronisation) of mixes of every call kind the property lists, at GOMAXPROCS 2/4/16.",
+   note="Trusted: TLC; the lock/step transcription of the operations in Locks.tla (checked against event_bus.go, persist.go, upcast.go, state/materializer.go by hand); the Go race detector (reports only races on executed schedules). Level 'model_checking' applies to the deadlock clause; the race clause is dynamic analysis.", ref="DESIGN.md 5/C03, 4.2"),
+})
+CHECKS["C20"]["technique"]="TLA+ spec Bus.tla / Persist.tla (observability callbacks as actions): exhaustive TLC; recorded callback traces of the real bus validated against BusTrace.tla and PersistTrace.tla; the real OpenTelemetry implementation run in front of the recorder on the SDK's span recorder and manual metric reader"
+CHECKS["C20"]["text"]+=" Persist start/complete are checked by PersistTrace.tla (one pair per append attempt, none for unencodable events, error iff the append failed). The OpenTelemetry implementation is teed in front of the recording observability: started = ended spans, each ended once, handler/persist spans children of a publish span, error status and the counters equal the numbers of callbacks in the trace that BusTrace.tla accepted."
 checks=[]
 for p in props:
     c=CHECKS.get(p['id'])
